@@ -124,8 +124,12 @@ def gen(seed, idx, tier):
     elif cls == "seed-mismatch":
         defect["seed_change"] = rnd.choice(["film", "layer", "probes", "terminals"])
     elif cls == "A-shape":
-        defect["shape"] = rnd.choice(["scalar", "column", "short"])
-        scn["drive"]["field"] = {"kind": "tree", "tree": {"leaf": {"scalar": "scalar2d", "column": "column2d", "short": "short3d"}[defect["shape"]], "a": 0.1, "b": 0.2}}
+        defect["shape"] = rnd.choice(["scalar", "column", "short", "plain-col1", "plain-flat", "plain-short"])
+        if defect["shape"].startswith("plain-"):
+            # a plain callable (tdgl.Parameter would squeeze its output)
+            scn["drive"]["field"] = {"kind": "plain", "shape": defect["shape"][6:], "B": 0.2 * scen.FIELD_FACTOR[scn["options"]["field_units"]]}
+        else:
+            scn["drive"]["field"] = {"kind": "tree", "tree": {"leaf": {"scalar": "scalar2d", "column": "column2d", "short": "short3d"}[defect["shape"]], "a": 0.1, "b": 0.2}}
     elif cls == "bad-polygon":
         defect["poly"] = rnd.choice(["bowtie", "two-points", "hole-bowtie"])
     elif cls == "bad-device":
